@@ -197,7 +197,7 @@ def run(tier, seed):
                 fs = F.at_inst(c)
                 ok = M.find_fact(("eq", ctype, START), fs)[0] is not None or M.find_fact(("eq", ctype, NORMAL), fs)[0] is not None
                 # disjunction: use edges
-                cut = F.edges_with_fact(("eq", ctype, START)) | F.edges_with_fact(("eq", ctype, NORMAL))
+                cut = F.edges_value_in(ctype, {START, NORMAL})
                 okc = not F.reaches_avoiding(0, c.block.id, cut)
                 rep.check(rid, ok or okc, "input advances only when the last entry was START or NORMAL", c.where(), None, function=nf.cname, obj="advance")
 
